@@ -140,6 +140,12 @@ func (u *ubound) boundedDef(mf *memField, def *memDef, isX func(ssa.Value) bool,
 					okSite = true
 					break
 				}
+				// a helper hands back one of its struct variables whole (`if q.num < p.num { return q }; return p`):
+				// what it found out about that variable's member on the way to this return
+				if ret, isRet := at.(*ssa.Return); isRet && u.returnedMemberBounded(ret, mf.fld, isX, d, busy) {
+					okSite = true
+					break
+				}
 			}
 			if okSite {
 				continue
@@ -197,6 +203,55 @@ func (u *ubound) boundedDef(mf *memField, def *memDef, isX func(ssa.Value) bool,
 			}
 		}
 		return true
+	}
+	return false
+}
+
+// returnedMemberBounded: ret returns the content of a local struct cell C; on every path to it a read
+// of C.fld was compared <= something bounded.
+func (u *ubound) returnedMemberBounded(ret *ssa.Return, fld int, isX func(ssa.Value) bool, d int, busy map[ssa.Value]bool) bool {
+	fn := ret.Parent()
+	for _, rv := range returnValues(ret) {
+		ld, ok := stripConv(rv).(*ssa.UnOp)
+		if !ok || ld.Op != token.MUL {
+			continue
+		}
+		cell, ok := ld.X.(*ssa.Alloc)
+		if !ok {
+			continue
+		}
+		// the cell is written once (the spilled parameter or a local built once)
+		nst := 0
+		for _, ref := range *cell.Referrers() {
+			if st, isSt := ref.(*ssa.Store); isSt && st.Addr == ssa.Value(cell) {
+				nst++
+			}
+		}
+		if nst != 1 {
+			continue
+		}
+		good := false
+		allInstrs(fn, func(in ssa.Instruction) {
+			if good {
+				return
+			}
+			mld, isLd := in.(*ssa.UnOp)
+			if !isLd || mld.Op != token.MUL {
+				return
+			}
+			fa, isFA := mld.X.(*ssa.FieldAddr)
+			if !isFA || fa.X != ssa.Value(cell) || fa.Field != fld {
+				return
+			}
+			for _, lf := range u.leqIn(fn, mld) {
+				if len(lf.edges) > 0 && guardedByEdges(fn, ret, lf.edges) && u.bounded(lf.w, isX, d+1, busy) {
+					good = true
+				}
+			}
+		})
+		if good {
+			return true
+		}
 	}
 	return false
 }
@@ -293,7 +348,12 @@ func (u *ubound) Bounded(v ssa.Value, isX func(ssa.Value) bool) bool {
 	return u.bounded(v, isX, 0, map[ssa.Value]bool{})
 }
 
-func (u *ubound) bounded(v ssa.Value, isX func(ssa.Value) bool, d int, busy map[ssa.Value]bool) bool {
+func (u *ubound) bounded(v ssa.Value, isX func(ssa.Value) bool, d int, busy map[ssa.Value]bool) (res bool) {
+	if debugOn() {
+		defer func() {
+			fmt.Printf("DEBUG ubound %*s%s %T in %s -> %v\n", d*2, "", v.Name(), v, fnName(fnOfValue(v, u.fn)), res)
+		}()
+	}
 	v = stripNum(v)
 	if u.reg != nil {
 		v = stripNum(u.reg.Resolve(v))
@@ -326,8 +386,14 @@ func (u *ubound) bounded(v ssa.Value, isX func(ssa.Value) bool, d int, busy map[
 						continue
 					}
 					// on a path that reports an error the other results are not used
-					if last := vals[len(vals)-1]; len(vals) > 1 && isErrorType(last.Type()) && definitelyNonNilError(last, nil) {
-						continue
+					if last := vals[len(vals)-1]; len(vals) > 1 && isErrorType(last.Type()) {
+						if definitelyNonNilError(last, nil) {
+							continue
+						}
+						// `if err != nil { return 0, nil, err }`: non-nil on this path
+						if st := newPathFacts(cal).At(ret); st != nil && st.knownNonNil(last) {
+							continue
+						}
 					}
 					n++
 					if !u.bounded(vals[idx], isX, d+1, busy) && !u.siteOK(vals[idx], ret, isX, d, busy) {
